@@ -425,6 +425,19 @@ func (e *Exec) evalBuiltin(st *State, call *ast.CallExpr, name string) []Term {
 			dl.set(st, e.S.MkSlice(d.Sort, na, e.S.SlLen(d), e.S.SlNil(d)))
 			return []Term{n}
 		}
+		if d.Sort == SBytes && s.Sort == SBytes {
+			// opaque byte strings: copying a source of the same non-zero length overwrites the whole destination
+			// (the destination then has the source's content); an empty source changes nothing
+			e.S.needBytes()
+			ld, ls := app(SInt, "bytes_len", d), app(SInt, "bytes_len", s)
+			cp := e.Ctx.Fresh("bcopy", SBytes)
+			e.Ctx.Assume(st.PC, And(Eq(app(SInt, "bytes_len", cp), ld),
+				Implies(And(Eq(ld, ls), Gt(ls, Int(0))), Eq(cp, s)),
+				Implies(Eq(ls, Int(0)), Eq(cp, d))))
+			e.noteSliceWrite(st, call, call.Args[0])
+			dl.set(st, cp)
+			return []Term{Ite(Lt(ld, ls), ld, ls)}
+		}
 		e.unsupported(call.Pos(), "copy on %s", d.Sort)
 		return []Term{Int(0)}
 	case "panic":
